@@ -13,6 +13,9 @@ def main(tier, seed):
 
     n = 1200 if tier == "quick" else 20000
     design_mc.run(rep, "C15", seed, n=3, nf=3, ng=2)
+    from fv import callkinds
+
+    callkinds.run(rep, "C15")   # CallKinds.tla: what becomes of the value a call returns
     design_trace.run(rep, "C15", n, seed, {"nmax": 14, "resps": ["y", "f", "o", "h", "g", "z", ""], "salt": 15})
     # "returned unchanged": missing values in columns the formula does not use must not cost the response a row
     design_trace.run(rep, "C15", n // 3, seed, {"nmax": 14, "resps": ["y", "f", "o", "z"], "salt": 16, "na_rate": 0.2, "na_cols": ("u1", "u2", "w", "xc"), "only_resp": True})
